@@ -1100,3 +1100,44 @@ def ord16_partials_combined_in_partition_order(ctx):
 def json_text_(node):
     import json as _json
     return _json.dumps(node)
+
+
+# ------------------------------------------------------------------------------------ NUL-2
+def nul2_bitmap_ones_fill_whole_bytes_only(ctx):
+    ctx.rule('NUL-2', 'the null bitmap is filled with all-ones bytes only for complete bytes '
+                      '(count = bits / 8 rounded down): `push_nulls` never writes into an existing '
+                      'bitmap and relies on every bit at or beyond the current length being 0, so a '
+                      'fill rounded up (`div_ceil`, `(n + 7) / 8`) marks up to seven later NULL rows as '
+                      'present', floor=1)
+    P = ctx.P
+    n = 0
+    for b in P.fn_bodies():
+        if b.crate != 'locustdb' or not b.name.startswith('mem_store::column_buffer::'):
+            continue
+        du = None
+        k_in_body = 0
+        for blk, t in b.calls():
+            if blk.cleanup:
+                continue
+            f = norm_callee(t.func or '')
+            cnt = None
+            if re.search(r'vec::from_elem(::<u8>)?$', f) and len(t.args) == 2 and re.search(r'(255_u8|u8::MAX)', t.args[0]):
+                cnt = t.args[1]
+            elif re.search(r'Vec::<u8>::resize$|Vec::resize$', f) and len(t.args) == 3 and re.search(r'(255_u8|u8::MAX)', t.args[2]):
+                cnt = t.args[1]
+            if cnt is None:
+                continue
+            n += 1
+            k_in_body += 1
+            du = du or DefUse(b)
+            l = base_local(cnt)
+            org = du.origins(l) if l is not None else {'calls': [], 'stmts': []}
+            up = any(norm_callee(c.func).endswith('::div_ceil') or norm_callee(c.func).endswith('next_multiple_of')
+                     for (_b, c) in org['calls'])
+            up = up or any(re.match(r'^Add(WithOverflow)?\(.*const 7_usize\)$', st.rhs.strip()) for (_b, st) in org['stmts'])
+            down = any(re.match(r'^(Div|Shr)\(.*, const (8|3)_(usize|u32|i32)\)$', st.rhs.strip()) for (_b, st) in org['stmts'])
+            ctx.check('NUL-2', '%s|ones-fill%s' % (b.name, '' if k_in_body == 1 else '#%d' % k_in_body), down and not up,
+                      'all-ones fill of the bitmap covers %s' % ('complete bytes only (count = bits / 8)' if down and not up
+                                                                 else 'a count that is not bits / 8 rounded down'),
+                      where(t))
+    ctx.require(n >= 1, 'NUL-2: no all-ones fill of a bitmap in column_buffer (anchor)')
